@@ -578,10 +578,17 @@ func synJournal(r *RNG) (string, []string) {
 	for t := range g.tags {
 		kinds = append(kinds, "~"+t)
 	}
-	return b.String(), kinds
+	text := b.String()
+	// the very start of the text is a boundary of its own: a byte order mark or other invisible character
+	// in front of an otherwise valid journal (files saved by other editors)
+	if r.Chance(1, 25) {
+		text = Pick(r, []string{"\xef\xbb\xbf", "\xef\xbb\xbf", "\xc2\xa0", "\xe2\x80\x8b", "\xff\xfe", "\x00"}) + text
+		kinds = append(kinds, "~invisible-prefix")
+	}
+	return text, kinds
 }
 
-var synInteresting = []string{" ", "\t", "\r", "\n", "\"", ":", "-", ".", ",", "(", ")", "@", "$", "#", "*", "/", "//", "i", "a", "0", "\xff", "\xc3", "\xe2\x82", "\x80", "\x00", "\xef\xbf\xbd", "é", "include", "open", "balance", "@performance", "@accrue", "daily", "\r\n", "\n\n", "2020-01-01", "A:B"}
+var synInteresting = []string{"\xef\xbb\xbf", "\xc2\xa0", "\xe2\x80\x8b", "\xe2\x80\xa8", "\xc2\x85", "\x0b", "\x0c", " ", "\t", "\r", "\n", "\"", ":", "-", ".", ",", "(", ")", "@", "$", "#", "*", "/", "//", "i", "a", "0", "\xff", "\xc3", "\xe2\x82", "\x80", "\x00", "\xef\xbf\xbd", "é", "include", "open", "balance", "@performance", "@accrue", "daily", "\r\n", "\n\n", "2020-01-01", "A:B"}
 
 // synMutate applies a few byte-level mutations.
 func synMutate(r *RNG, s string) string {
@@ -593,6 +600,9 @@ func synMutate(r *RNG, s string) string {
 			continue
 		}
 		p := r.Intn(len(b))
+		if r.Chance(1, 10) {
+			p = 0 // the start of the text is a boundary of its own
+		}
 		switch r.Intn(7) {
 		case 0: // delete a byte
 			b = append(b[:p], b[p+1:]...)
@@ -625,7 +635,7 @@ func synMutate(r *RNG, s string) string {
 	return string(b)
 }
 
-var synRawAlphabet = []string{" ", " ", "\t", "\r", "\n", "\n", "\"", ":", "-", ".", ",", "(", ")", "@", "$", "#", "*", "/", "a", "b", "i", "o", "A", "0", "1", "2", "9", "é", "漢", "\xff", "\xc3", "\xe2", "\x80", "\xbf", "\x00", "\xed\xa0\x80", "\xf0\x9f\x98\x80", "\xf4\x90\x80\x80", "\xef\xbf\xbd", "\xc0\x80", "open", "close", "price", "balance", "include", "2020-01-01", "@performance", "@accrue", "daily", "A:B", "CHF", "1.5"}
+var synRawAlphabet = []string{"\xef\xbb\xbf", "\xc2\xa0", "\xe2\x80\x8b", "\xe2\x80\xa8", "\xc2\x85", "\x0b", "\x0c", " ", " ", "\t", "\r", "\n", "\n", "\"", ":", "-", ".", ",", "(", ")", "@", "$", "#", "*", "/", "a", "b", "i", "o", "A", "0", "1", "2", "9", "é", "漢", "\xff", "\xc3", "\xe2", "\x80", "\xbf", "\x00", "\xed\xa0\x80", "\xf0\x9f\x98\x80", "\xf4\x90\x80\x80", "\xef\xbf\xbd", "\xc0\x80", "open", "close", "price", "balance", "include", "2020-01-01", "@performance", "@accrue", "daily", "A:B", "CHF", "1.5"}
 
 func synRaw(r *RNG) string {
 	n := r.Range(0, 40)
